@@ -30,7 +30,11 @@ impl<Callbacks: crate::callbacks::Callbacks> vte::Perform
     for WrappedScreen<Callbacks>
 {
     fn print(&mut self, c: char) {
-        if c == '\u{fffd}' || ('\u{80}'..'\u{a0}').contains(&c) {
+        if ('\u{80}'..'\u{a0}').contains(&c) {
+            // vte reports C1 control characters through execute() or
+            // print() depending on how the input happened to be chunked
+            self.execute(u8::try_from(u32::from(c)).unwrap());
+        } else if c == '\u{fffd}' {
             self.callbacks.unhandled_char(&mut self.screen, c);
         } else {
             self.screen.text(c);
